@@ -420,7 +420,7 @@ class Interp:
                 if all(isinstance(v, (int, float)) for v in vals):
                     return (min if fn in ('min', 'np.minimum') else max)(vals)
                 return OPQ
-            if fn in ('float', 'int') and e.args:
+            if fn in ('float', 'int', 'np.float64', 'np.float32', 'np.int64', 'numpy.float64') and e.args:        # value-preserving conversions of a coordinate (order kept)
                 return self.expr(e.args[0])
             if fn in ('tuple', 'list') and e.args:
                 v = self.expr(e.args[0])
